@@ -133,11 +133,15 @@ Fixpoint load_module (fuel : nat) (fs : fsys) (cfg : config) (st : lstate) (p : 
 Definition total_mains (fs : fsys) (ps : list path) : nat :=
   fold_right (fun p acc => match lookup fs p with Some f => fmains f + acc | None => acc end) 0 ps.
 
-(* ModuleLoader::load: the implicit bloch.lang.Object first (when it resolves), then the entry *)
+(* ModuleLoader::load: the implicit bloch.lang.Object first (when it resolves; like an import of it, the file must declare
+   package bloch.lang), then the entry *)
 Definition load (fs : fsys) (cfg : config) (entry : path) : list path + lerr :=
   let fuel := S (S (List.length fs)) in
   let st := match resolve_sym fs cfg ["bloch"; "lang"; "Object"] (parent entry) with
-            | Some obj => load_module fuel fs cfg st0 obj
+            | Some obj => match load_module fuel fs cfg st0 obj with
+                          | inr e => inr e
+                          | inl s => if pkg_eqb (pkg_of fs obj) ["bloch"; "lang"] then inl s else inr EPackage
+                          end
             | None => inl st0
             end in
   match st with
